@@ -374,6 +374,18 @@ func runDirect(cfg aggRun, w *vt.Writer, seed int64) {
 		go func(g int) {
 			defer wg.Done()
 			r := rand.New(rand.NewSource(seed*1000 + int64(g)))
+			if cfg.mode == "dropstress" {
+				// n reports of ONE sample per goroutine, fired at the same time against a tiny queue:
+				// thousands of concurrent drops, all of which must be counted (one bulk event per goroutine)
+				abs, s := cfg.sample(r, g, 1)
+				w.Emit(map[string]interface{}{"ev": "Reports", "run": cfg.run, "g": g, "n": cfg.per[g-1], "s": abs})
+				ready.Done()
+				<-gate
+				for i := 0; i < cfg.per[g-1]; i++ {
+					a.Report(s)
+				}
+				return
+			}
 			if cfg.mode == "burst" {
 				// all goroutines report in a tight loop at the same time; the reports are logged beforehand
 				var ss []core.Sample
@@ -560,6 +572,7 @@ func aggMain(args []string) {
 	runs := fs.Int("runs", 300, "direct runs")
 	engRuns := fs.Int("engine", 20, "engine runs that end by themselves")
 	cancelRuns := fs.Int("cancel", 20, "engine runs cancelled from outside at a seeded instant")
+	stressRuns := fs.Int("dropstress", 4, "jsonlines runs with thousands of concurrent drops")
 	par := fs.Int("par", 4, "runs in flight")
 	fs.Parse(args)
 	seed := aggSeed()
@@ -569,9 +582,11 @@ func aggMain(args []string) {
 	qs := []int{1, 1, 2, 3, 4, 8, 16, 64}
 	flushes := []int{1, 1, 2, 5, 20, 100, 1000}
 	var cfgs []aggRun
-	for n := 0; n < *runs+*engRuns+*cancelRuns; n++ {
+	for n := 0; n < *runs+*engRuns+*cancelRuns+*stressRuns; n++ {
 		cfg := aggRun{run: n + 1, via: "direct"}
-		if n >= *runs+*engRuns {
+		if n >= *runs+*engRuns+*cancelRuns {
+			cfg.via = "direct"
+		} else if n >= *runs+*engRuns {
 			cfg.via = "cancel"
 		} else if n >= *runs {
 			cfg.via = "engine"
@@ -625,6 +640,13 @@ func aggMain(args []string) {
 				for g := range cfg.per {
 					cfg.per[g] = 20 + r.Intn(21)
 				}
+			}
+		}
+		if n >= *runs+*engRuns+*cancelRuns {
+			cfg.mode, cfg.kind, cfg.k, cfg.q = "dropstress", "jsonlines", 8, 1+r.Intn(2)
+			cfg.per = nil
+			for g := 0; g < cfg.k; g++ {
+				cfg.per = append(cfg.per, 3000+r.Intn(2000))
 			}
 		}
 		if cfg.via == "engine" {
